@@ -18,10 +18,10 @@ CLAIMED = {
    text="Model checking, stateless shape: for every cell of depths 0..10 (quick) / 0..12 (thorough) and for all border/corner class cells (plus their neighbours) of depths up to 29, neighbours(h) (with and without centre), neighbour(h, dir) for the 9 directions and the symmetry of the relation are compared with the integer lattice adjacency model (cells sharing a canonical vertex; label = which vertices are shared). Exact oracle; out-of-range hashes must panic at every depth.",
    note="Trusted: lattice adjacency model R2 (exact seam identification), self-checked for symmetry and the 8/7/6 neighbour counts at depths 0..3."),
  "C05": dict(tech=S, ref="4/C05",
-   text="Model checking, stateless shape with a witness oracle: every combination (variant approx / flat / custom, depth 0..3 quick / 0..5 thorough, delta_depth 1..2/3, centre = every node of the 2^-1 / 2^-2 plane lattice + poles, seam points, turned longitudes, generic points; radius = 18 fixed radii from 1e-9 to > pi plus 7/11 factors around every start-depth limit k <= depth+3, the limits being recovered from the public API by bisection) is executed; for each query EVERY cell of the depth is a candidate: a cell with one of its 81 lattice points (or the cone centre strictly inside it) inside the cone by a 1e-9 margin must be covered. Deep tier (depths 8..29): witnesses are points of the cone hashed at the query depth. Misses matching the listed known finding KF-1 are reported as KNOWN-FINDING only.",
+   text="Model checking, stateless shape with a witness oracle: every combination (variant approx / flat / custom, depth 0..3 quick / 0..5 thorough, delta_depth 1..2/3, centre = every node of the 2^-1 / 2^-2 plane lattice + poles, seam points, turned longitudes, generic points; radius = 18 fixed radii from 1e-9 to > pi plus 7/11 factors around every start-depth limit k <= depth+3, the limits being recovered from the public API by bisection) is executed (in two build profiles: release, and release with debug assertions + overflow checks); for each query EVERY cell of the depth is a candidate: a cell with one of its 81 lattice points (or the cone centre strictly inside it) inside the cone by a 1e-9 margin must be covered. Deep tier (depths 8..29): witnesses are points of the cone hashed at the query depth. Misses matching the listed known finding KF-1 are reported as KNOWN-FINDING only.",
    note="Trusted: R1/R2, the witness construction (sound: it only demands cells that contain a point of the cone), C01 for the deep tier. Cone parameters between alphabet points are outside the bound."),
  "C06": dict(tech=S, ref="4/C06",
-   text="Model checking, stateless shape: the same query alphabet as C05; every returned entry is checked: a cell flagged full has all its 81 lattice points (vertices and edge points included) within radius + 1e-9; every cell centre is within radius + 2 x (reference largest centre-to-vertex distance of its depth); radius >= pi gives exactly the 12 full base cells; no four full siblings; well-formed.",
+   text="Model checking, stateless shape: the same query alphabet and build profiles as C05; every returned entry is checked: a cell flagged full has all its 81 lattice points (vertices and edge points included) within radius + 1e-9; every cell centre is within radius + 2 x (reference largest centre-to-vertex distance of its depth); radius >= pi gives exactly the 12 full base cells; no four full siblings; well-formed.",
    note="Trusted: R1/R2 and the exhaustively computed reference cell sizes (depth <= 8; 1.07/nside beyond)."),
  "C16": dict(tech=S, ref="4/C16",
    text="Model checking, stateless shape: claim 1 on all cells of depth <= 7 / 9 and border-class cells to depth 29 (true centre-to-farthest-vertex distance from R1/R2); claim 2 on ~110 positions x 8 radii x depths 0..4 / 0..6 against EVERY cell whose centre is within the radius, for the scalar and both array forms; claim 3: the 30 limits recovered by bisection are strictly decreasing, best_starting_depth equals 'deepest limit exceeding r' on 12 factors x 30 limits and refuses exactly when has_best_starting_depth says so, and for the characteristic points of the border-class cells of every depth x radii just below each limit, 320 points of the cone lie in the cell of the centre (the subject's own hash) or its 8 lattice neighbours. Containment failures matching KF-1 are reported as KNOWN-FINDING only.",
